@@ -937,6 +937,18 @@ func (s *Sched) TaskStates() map[string]string {
 	return out
 }
 
+// AllDone reports whether every task has finished.
+func (s *Sched) AllDone() bool {
+	s.mu.Lock()
+	defer s.mu.Unlock()
+	for _, t := range s.tasks {
+		if t.state != stDone {
+			return false
+		}
+	}
+	return true
+}
+
 // TaskDone reports whether the named task has finished (or never existed).
 func (s *Sched) TaskDone(name string) bool {
 	s.mu.Lock()
